@@ -125,7 +125,8 @@ def snap_val(v):
 
 
 MUTATING_METHODS = {'append', 'pop', 'add', 'remove', 'update', 'insert', 'clear', 'extend', 'sort', 'discard',
-                    'popitem', 'setdefault', 'reverse'}
+                    'popitem', 'setdefault', 'reverse', 'add_node', 'add_edge', 'remove_node', 'remove_edge',
+                    'add_nodes_from', 'add_edges_from', 'remove_nodes_from'}
 
 
 class Run:
@@ -301,6 +302,16 @@ class Run:
                 return v
             raise Unsupported('packing %r into %s' % (v, esort.name))
         return coerce(v, esort)
+
+    def ev_Set(self, e, env):
+        items = [self.ev(x, env) for x in e.elts]
+        if not items or not all(z3.is_expr(x) for x in items):
+            raise Unsupported('set literal at line %d' % e.lineno)
+        ks = items[0].sort()
+        dom = z3.K(ks, BoolVal(False))
+        for x in items:
+            dom = z3.Store(dom, x, BoolVal(True))
+        return SSet(ks, dom=dom, name='setlit')
 
     def ev_Dict(self, e, env):
         if e.keys:
@@ -666,6 +677,8 @@ class Run:
                     args.extend(v)
                 elif isinstance(v, _PyList):
                     args.extend(v.items)
+                elif z3.is_expr(v) and v.sort() == so.Pair():
+                    args.extend([so.Pair().fst(v), so.Pair().snd(v)])
                 else:
                     raise Unsupported('*args of unknown length at line %d' % e.lineno)
             else:
@@ -886,6 +899,8 @@ class Run:
         except Exception:
             return val
         mk = self.unit.locals_.get(key)
+        if mk is None and isinstance(val, Untyped) and getattr(val, 'default_factory', None) is not None:
+            return val.default_factory()
         if mk is None:
             if isinstance(val, Untyped):
                 raise Unsupported('%s(...) assigned to %s needs a typed local in the contract' % (val.what, key))
